@@ -58,6 +58,13 @@ func PlayGrid(tier string) []*Config {
 			add(cfg(br, 0, 1, 2, 0, false, btn, "no", "sv:1,1,0", 2, 0, "standard", "all"))
 		}
 	}
+	// big blind of 3: a short big blind or a tiny bet can be below the big blind while a caller holds less than the completion
+	for _, br := range vectors(3, []int64{1, 2, 4}) {
+		add(cfg(br, 0, 1, 3, 0, false, 0, "no", "sv:0,1,1", 2, 0, "standard", "all"))
+	}
+	for _, br := range vectors(3, []int64{2, 5}) {
+		add(cfg(br, 1, 2, 5, 0, false, 1, "no", "sv:1,0,1", 2, 0, "standard", "classes"))
+	}
 	// ante + dead small blind + dealer blind + pot limit, 3-handed
 	for _, br := range vectors(3, []int64{1, 3, 7}) {
 		add(cfg(br, 1, 1, 2, 0, false, 0, "no", "sv:0,2,2", 2, 0, "standard", "all"))
